@@ -27,7 +27,7 @@ def scenarios(seed, tier):
     r = core.Rng("c14", seed)
     sc = []
     base = [
-        dict(GridSize=32, StepsPerTs=16, rotations=0.75, outstep=3, SavePhaseSpace=1, VacuumGap=0),
+        dict(GridSize=32, StepsPerTs=16, rotations=0.75, outstep=3, SavePhaseSpace=1, VacuumGap=0, verbose=True),
         dict(GridSize=32, StepsPerTs=20, rotations=0.5, outstep=1, SavePhaseSpace=2, _tracking=3),
         dict(GridSize=40, StepsPerTs=16, rotations=1.0, outstep=7, SavePhaseSpace=0, RenormalizeCharge=4),
         dict(GridSize=32, StepsPerTs=16, rotations=0.625, outstep=0, SavePhaseSpace=0),
@@ -284,10 +284,20 @@ def enumerate_scenario(ctx, idx, o, sdir):
         if a != b:
             sjobs.append(((a, b), calls[a - 1]))
 
+    # bursts: many signals in a row at one call (a key held down, a job wrapper that keeps signalling) - counts around the widths of small counters
+    bursts = [2, 255, 256, 257, 512, 65536] if ctx.tier == "thorough" else [256, 257, 512, 3]
+    for bi, nsig in enumerate(bursts):
+        c = calls[r.randint(0, len(calls) - 1)]
+        sjobs.append(((c[0],), c, nsig))
+
     def sone(job):
-        ks, c = job
-        wd, res = go("w" + "_".join(map(str, ks)), {}, {"LD_PRELOAD": shim, "VERIF_SHIM_SIGINT_AT": ",".join(map(str, ks)),
-                                                          "VERIF_SHIM_LOG": "points.log", "INOVESA_VERIF_POINTLOG": "points.log"})
+        ks, c = job[0], job[1]
+        env = {"LD_PRELOAD": shim, "VERIF_SHIM_SIGINT_AT": ",".join(map(str, ks)), "VERIF_SHIM_LOG": "points.log", "INOVESA_VERIF_POINTLOG": "points.log"}
+        name = "w" + "_".join(map(str, ks))
+        if len(job) > 2:
+            env["VERIF_SHIM_SIGINT_REPEAT"] = str(job[2])
+            name += "x%d" % job[2]
+        wd, res = go(name, {}, env)
         try:
             got = read_mixed(os.path.join(wd, "points.log"))
         except OSError:
@@ -295,17 +305,20 @@ def enumerate_scenario(ctx, idx, o, sdir):
         return dict(job=job, res=res, wd=wd, calls=got)
 
     for outp in core.pmap(sone, sjobs):
-        ks, c = outp["job"]
+        ks, c = outp["job"][0], outp["job"][1]
+        nsig = outp["job"][2] if len(outp["job"]) > 2 else 1
         res = outp["res"]
         inj = [x for x in outp["calls"] if x[2]]
-        ctx.case("s%d:w%s" % (idx, ks))
+        ctx.case("s%d:w%s%s" % (idx, ks, "x%d" % nsig if nsig > 1 else ""))
+        if nsig > 1:
+            ctx.ev("signal_bursts_inside_hdf5_writes")
         if not inj or inj[0][0] != ks[0]:
             ctx.inconcl("scenario %d write %s: injection did not fire where intended" % (idx, ks))
             continue
         tag, st = inj[0][3]
         w = dict(scenario=idx, options=run, hdf5_calls=list(ks), function=c[1], after_point=tag, step_at_signal=st, cmd=" ".join(res["argv"]),
-                 env="LD_PRELOAD=sigshim VERIF_SHIM_SIGINT_AT=%s" % ",".join(map(str, ks)))
-        sfx = ":inside_write:" + tag.split(":")[0]
+                 env="LD_PRELOAD=sigshim VERIF_SHIM_SIGINT_AT=%s%s" % (",".join(map(str, ks)), " VERIF_SHIM_SIGINT_REPEAT=%d" % nsig if nsig > 1 else ""), signals_in_a_row=nsig)
+        sfx = ":inside_write:" + tag.split(":")[0] + (":burst" if nsig > 1 else "")
         ctx.ev("injections_inside_hdf5_writes_confirmed", len(inj))
         bad = prog.program_outcome_key(res)
         if bad:
@@ -425,6 +438,6 @@ def run(ctx):
     tags = ctx.extra.pop("point_tags_seen", set())
     ctx.extra["point_tags_seen"] = sorted(tags)
     ctx.extra["explanation"] = "every interrupt point of the chosen runs was injected once (complete for those runs); the set of runs is a sample"
-    ctx.min_events = {"injections_confirmed": 300, "injected.setup": 20, "injected.loop": 100, "injected.out": 20,
+    ctx.min_events = {"signal_bursts_inside_hdf5_writes": 8, "injections_confirmed": 300, "injected.setup": 20, "injected.loop": 100, "injected.out": 20,
                       "injected.final": 5, "injected.loopend": 5, "records_compared_bitwise": 3000, "async_runs_judged": 10,
                       "injections_inside_hdf5_writes_confirmed": 100}
